@@ -442,7 +442,9 @@ impl EmbeddingSlab {
         let slab = Self::new(snapshot.dimension, snapshot.embeddings.len().max(1));
 
         for (entity, compressed) in snapshot.embeddings {
-            if !compressed.is_well_formed() {
+            // Every embedding of a slab has the slab's dimension; anything else (a damaged
+            // snapshot) would be refused by `set` anyway and must not be expanded first.
+            if !compressed.is_well_formed() || compressed.dense_len() != snapshot.dimension {
                 tracing::warn!(
                     entity = %entity.as_u64(),
                     "Skipping malformed embedding in snapshot"
@@ -596,6 +598,16 @@ impl CompressedEmbedding {
                     && positions.iter().all(|&p| (p as usize) < *dimension)
             },
             Self::TensorTrain(tt) => tt.validate().is_ok(),
+        }
+    }
+
+    /// Length of the vector `to_dense` produces (for a well-formed value).
+    #[must_use]
+    pub fn dense_len(&self) -> usize {
+        match self {
+            Self::Dense(v) => v.len(),
+            Self::Sparse { dimension, .. } => *dimension,
+            Self::TensorTrain(tt) => tt.shape.iter().fold(1usize, |p, n| p.saturating_mul(*n)),
         }
     }
 
